@@ -74,7 +74,7 @@ func c03SplitAlphabet() []Op {
 	for _, p := range c03SplitPool {
 		ops = append(ops, Op{K: "remove", P: p})
 	}
-	return append(ops, Op{K: "clean"}, Op{K: "pclean", P: "/p/{x}/b"}, Op{K: "pclean", P: "/p/{x}/"}, Op{K: "remove", P: "/p/{x}/bc", Ms: []string{"GET"}})
+	return append(ops, Op{K: "clean"}, Op{K: "pclean", P: "/p/{x}/b"}, Op{K: "pclean", P: "/p/{x}/"}, Op{K: "pclean", P: "/p/{x}/bc"}, Op{K: "remove", P: "/p/{x}/bc", Ms: []string{"GET"}})
 }
 
 func c03AlphabetOf(family int) []Op {
